@@ -1,8 +1,8 @@
 import Ldap3V.Driver.Util
 import Ldap3V.Model.Filter
 import Ldap3V.Spec.Filter
-namespace Ldap3V.Driver
-open Ldap3V
+namespace Ldap3V.Driver.FilterD
+open Ldap3V Ldap3V.Driver
 
 def showOutcome (o : Filter.Outcome) : String :=
   match o with
@@ -82,6 +82,11 @@ alphabet, joined by `;` (evaluated as parallel tasks) -/
 def filterBatch3 (pre : Bytes) : String :=
   let tasks := batchAlphabet.toList.map fun a => Task.spawn fun _ => filterBatch (pre ++ [a]) 2
   ";".intercalate (tasks.map Task.get)
+
+end Ldap3V.Driver.FilterD
+
+namespace Ldap3V.Driver
+open Ldap3V Ldap3V.Driver.FilterD
 
 /-- line-protocol handler for the `Filter` family of commands; `none` = not mine -/
 def handleFilter (cmd arg : String) : Option String :=
